@@ -399,7 +399,21 @@ def run(ctx):
             continue
         seen_h.add((id(st), norm(value)))
         if isinstance(value, ast.Call) and dotted(value.func) == 'int' and "strftime('%H%M%S')" in norm(value):
-            ctx.ok('R-HMSENC', norm(st)[:60], where, "HHMMSS text from strftime('%H%M%S')")
+            # a time of day may be formatted from a datetime; a *step* (a duration added to some date) may not: %H wraps at 24 hours
+            dur = [x for x in ast.walk(value) if isinstance(x, ast.Call) and isinstance(x.func, ast.Attribute) and x.func.attr == 'strftime'
+                   and isinstance(x.func.value, ast.BinOp) and isinstance(x.func.value.op, ast.Add) and 'datetime(' in norm(x.func.value.left)]
+            if dur and f['attr'] == 'TSTEP':
+                ctx.violation(Finding('R-HMSENC', RP, Q, st, "the step is encoded as strftime('%%H%%M%%S') of a fixed date plus the step (%s): whole days are dropped, so a window of a daily file "
+                                      '(TSTEP 240000) gets TSTEP 0' % norm(dur[0].func.value)[:50]))
+            else:
+                ctx.ok('R-HMSENC', norm(st)[:60], where, "HHMMSS text from strftime('%H%M%S')")
+        if isinstance(value, ast.Call) and (dotted(value.func) or '').split('.')[-1] == '_timedelta2tstep':
+            hf = ctx.src.mod(RP).functions.get('_timedelta2tstep')
+            body_ = ' '.join(norm(s2) for s2 in iter_stmts(hf.body)) if hf is not None else ''
+            if all(k_ in body_ for k_ in ('// 3600 * 10000', '% 3600 // 60 * 100', '% 60')) and 'total_seconds' in body_:
+                ctx.ok('R-HMSENC', norm(st)[:60], where, 'step encoded from total seconds: hours*10000 + minutes*100 + seconds, hours unlimited')
+            else:
+                ctx.violation(Finding('R-HMSENC', RP, Q, st, 'the step is encoded by _timedelta2tstep, whose body is not total seconds -> hours*10000 + minutes*100 + seconds'))
         if isinstance(value, ast.BinOp) and isinstance(value.op, ast.Add):
             terms = []
             def flat(e):
